@@ -864,7 +864,9 @@ func (r *resolver) cloneDefs(parent HasDataDefinitions, defs []Definition, when 
 	for i, d := range defs {
 		copy[i] = d.(cloneable).clone(parent).(Definition)
 		if when != nil {
-			copy[i].(HasWhen).setWhen(when)
+			// the when of the uses applies on top of one the node states itself
+			hw := copy[i].(HasWhen)
+			hw.setWhen(when.and(hw.When()))
 		}
 	}
 	return copy
@@ -1020,8 +1022,9 @@ func (r *resolver) expandAugment(y *Augment, parent Meta) error {
 		r.copyDisabled(orig, d)
 		if y.when != nil {
 			// the nodes an augment adds are conditional on the augment's when, same as uses
-			if hw, canWhen := d.(HasWhen); canWhen && hw.When() == nil {
-				hw.setWhen(y.when)
+			// (on top of a when the node states itself)
+			if hw, canWhen := d.(HasWhen); canWhen {
+				hw.setWhen(y.when.and(hw.When()))
 			}
 		}
 		if targetIsChoice {
